@@ -5,6 +5,7 @@ package mod_static
 
 import (
 	"github.com/bfenetworks/bfe/bfe_basic"
+	"github.com/bfenetworks/bfe/bfe_basic/condition"
 	"github.com/bfenetworks/bfe/bfe_http"
 )
 
@@ -16,4 +17,42 @@ func VerifServe(enableCompress bool, root, defaultFile string, req *bfe_basic.Re
 	m.conf.Basic.EnableCompress = enableCompress
 	rule := &StaticRule{Action: Action{Cmd: ActionBrowse, Params: []string{root, defaultFile}}}
 	return m.createRespFromStaticFile(req, rule)
+}
+
+// VerifStaticRule / VerifStaticConf describe one rule configuration of a reload history.
+type VerifStaticRule struct {
+	Cond        string
+	Root        string
+	DefaultFile string
+}
+
+type VerifStaticConf struct {
+	Version  string
+	Products map[string][]VerifStaticRule
+}
+
+// VerifServeHistory loads the configurations one after the other into ONE module through the real
+// StaticRuleTable.Update, the way hot reloads (loadConfData) do, then runs the real staticFileHandler.
+// A nil response with ret = BfeHandlerGoOn means no rule took the request.
+func VerifServeHistory(enableCompress bool, confs []VerifStaticConf, req *bfe_basic.Request) (int, *bfe_http.Response, error) {
+	m := NewModuleStatic()
+	m.conf = &ConfModStatic{}
+	m.conf.Basic.EnableCompress = enableCompress
+	for _, c := range confs {
+		conf := StaticConf{Version: c.Version, Config: make(ProductRules)}
+		for product, rs := range c.Products {
+			rl := make(RuleList, 0, len(rs))
+			for _, r := range rs {
+				cond, err := condition.Build(r.Cond)
+				if err != nil {
+					return 0, nil, err
+				}
+				rl = append(rl, StaticRule{Cond: cond, Action: Action{Cmd: ActionBrowse, Params: []string{r.Root, r.DefaultFile}}})
+			}
+			conf.Config[product] = &rl
+		}
+		m.ruleTable.Update(conf)
+	}
+	ret, resp := m.staticFileHandler(req)
+	return ret, resp, nil
 }
